@@ -634,7 +634,11 @@ class Workflow(PersistableEntity):
     async def _save_additional_params(
         self, database: Database
     ) -> MutableMapping[str, Any]:
-        return {"config": self.config, "output_ports": self.output_ports}
+        return {
+            "config": self.config,
+            "input_ports": self.input_ports,
+            "output_ports": self.output_ports,
+        }
 
     if TYPE_CHECKING:
 
@@ -699,6 +703,7 @@ class Workflow(PersistableEntity):
                 strict=True,
             )
         }
+        workflow.input_ports = params["input_ports"]
         workflow.output_ports = params["output_ports"]
         rows = await loading_context.database.get_workflow_steps(persistent_id)
         workflow.steps = {
